@@ -54,8 +54,12 @@ def table(style, reps, n, badcells):
 
 
 def many_cell(beh):
-    """rowmapmany: the behaviour of the generator for a row is written in its b cell."""
+    """rowmapmany: the behaviour of the generator for a row is written in its b cell.
+    ('ok', m) -> 'k<m>';  ('fail', k) -> '!<k>';  ('fail', (k, p)) -> '!<k><p>' (lazy-row forms: after k good
+    rows the generator yields a last, lazy row whose materialisation raises at cell position p)."""
     kind, k = beh
+    if kind == 'fail' and isinstance(k, tuple):
+        return '!%d%d' % k
     return ('!%d' % k) if kind == 'fail' else 'k%d' % k
 
 
@@ -127,6 +131,92 @@ def rowlister(row):
     if b.startswith('!'):
         raise Boom(row[0])
     return many_rows(row, int(b[1:]))
+
+
+# ---- lazy rows: the mapper RETURNS (or the generator YIELDS) an iterator; its cells are computed, and may
+# ---- raise, only when petl materialises the row.  The statement makes no difference between a mapper that
+# ---- raises when called and one whose returned row raises while it is read: the row fails either way.
+
+def lazy_genexpr_mapper(row):
+    return (conv(v) for v in row)
+
+
+def lazy_map_mapper(row):
+    return map(conv, row)
+
+
+def lazy_iter_mapper(row):
+    """iter() over a lazily evaluating sequence-less object (neither generator nor map)."""
+    return _LazyRow([(conv, v) for v in row])
+
+
+def lazy_natural_mapper(row):
+    return map(int, row)
+
+
+class _LazyRow(object):
+    def __init__(self, thunks):
+        self.thunks = list(thunks)
+        self.i = 0
+
+    def __iter__(self):
+        return self
+
+    def __next__(self):
+        if self.i >= len(self.thunks):
+            raise StopIteration
+        fn, v = self.thunks[self.i]
+        self.i += 1
+        return fn(v)
+
+
+def _lazy_cells(cells, failpos, payload):
+    """Generator over cells that raises Boom(payload) instead of delivering the cell at failpos."""
+    for p, c in enumerate(cells):
+        if p == failpos:
+            raise Boom(payload)
+        yield c
+
+
+def lazy_rowgenerator(row):
+    """rowmapmany generator that yields LAZY rows; b is 'k<m>' or '!<k><p>'."""
+    b = row[1]
+    k = int(b[1])
+    for r in many_rows(row, k):
+        yield _lazy_cells(r, None, None)
+    if b.startswith('!'):
+        yield _lazy_cells((row[0], k, row[1]), int(b[2]), row[0])
+
+
+def lazy_rowlister(row):
+    """Not a generator: returns a list of lazy rows (map objects), the last one failing for '!' rows."""
+    b = row[1]
+    k = int(b[1])
+    out = [map(_ident, r) for r in many_rows(row, k)]
+    if b.startswith('!'):
+        out.append(_lazy_cells((row[0], k, row[1]), int(b[2]), row[0]))
+    return out
+
+
+def _ident(v):
+    return v
+
+
+def _lazy_row_model(fn):
+    """rowmap with a lazy row: the row fails iff materialising it fails; payload = first failing cell."""
+    def model(r):
+        cells = [_try(fn, v) for v in r]
+        fails = [c for c in cells if c[0] == 'fail']
+        if fails:
+            return ([], fails[0][1])
+        return ([[c[1] for c in cells]], NOFAIL)
+    return model
+
+
+def _lazy_many_model(r):
+    b = r[1]
+    k = int(b[1])
+    return (many_rows(r, k), r[0] if b.startswith('!') else NOFAIL)
 
 
 def _try(fn, *args):
@@ -220,6 +310,20 @@ FORMS = {
     'rowmap(natural)':             dict(style='num', level='row', header=('x', 'y'),
                                         model=lambda r: (([[int(r[0]), r[1]]], NOFAIL) if not is_bang(r[0])
                                                          else ([], ANY))),
+    # ---- rowmap whose mapper returns a lazy row (fails while petl materialises it)
+    'rowmap(f -> generator expression)': dict(style='num', level='row', header=('x', 'y'),
+                                              model=_lazy_row_model(conv)),
+    'rowmap(f -> map object)':     dict(style='num', level='row', header=('x', 'y'),
+                                        model=_lazy_row_model(conv)),
+    'rowmap(f -> iterator object)': dict(style='num', level='row', header=('x', 'y'),
+                                         model=_lazy_row_model(conv)),
+    'rowmap(f -> map(int, row))':  dict(style='num', level='row', header=('x', 'y'),
+                                        model=_lazy_row_model(int)),
+    # ---- rowmapmany yielding lazy rows; the failing lazy row is the last one produced for its input row
+    'rowmapmany(generator of lazy rows)': dict(style='many-lazy', level='row', header=('x', 'j', 'y'),
+                                               model=_lazy_many_model),
+    'rowmapmany(list of lazy rows)': dict(style='many-lazy', level='row', header=('x', 'j', 'y'),
+                                          model=_lazy_many_model),
     # ---- rowmapmany (row level; behaviour vector tables)
     'rowmapmany(generator)':       dict(style='many', level='row', header=('x', 'j', 'y'),
                                         model=lambda r: (many_rows(r, int(r[1][1:])),
